@@ -135,7 +135,7 @@ pub fn check(rep: &Report) {
             let src = if top_level && rng.chance(1, 3) { crate::c01::ill_mutate(&src, &mut rng) } else { src };
             // the value flowing into the first top-level step is nil: a first step that uses `~` at another type must be rejected
             let src = if top_level && rng.chance(1, 4) { rep.count("cli_first_step_uses_the_top_level_flowing_value", 1); format!("{},\n{}", *rng.pick(&["[~, 1] __integer_add__", "~ __binary_length__", "[~, 0x01] __binary_concat__", "q0 = [~, 2] __integer_multiply__", "~ =z0, [z0, 1] __integer_subtract__"]), src) } else { src };
-            let wrapped = if top_level { let steps = split_top(&src); if steps.len() < 2 { return; } format!("{},\n#{{ {} }}", steps[..steps.len() - 1].join(",\n"), steps[steps.len() - 1]) } else { format!("#{{ {} }}", src) };
+            let wrapped = if top_level { let steps = split_top(&src); if steps.len() < 2 || steps[steps.len() - 1].contains('~') { return; } /* inside the entry function `~` is the function's own (nil) parameter, not the previous step */ format!("{},\n#{{ {}\n}}", steps[..steps.len() - 1].join(",\n"), steps[steps.len() - 1]) } else { format!("#{{ {}\n}}", src) };   // (newline: the source may end in a `//` comment)
             if top_level {
                 // acceptance must agree between the library and the CLI
                 let lib_ok = qv::compile(&src, &b).is_ok();
